@@ -64,6 +64,9 @@ type c19Scn struct {
 	// each send one frame of 0.8 x burst; Rounds times. Tx/Rx patterns are ignored.
 	Race   int `json:"race_senders,omitempty"`
 	Rounds int `json:"rounds,omitempty"`
+	// CloseStreams: the user opens this many extra streams (one small message each); half-way through, the limited side
+	// closes them all at once while its bucket is empty: stream-closing frames are bytes sent to the user like any others
+	CloseStreams int `json:"close_streams,omitempty"`
 }
 
 type c19Ev struct {
@@ -242,6 +245,8 @@ func c19RunScenario(sc c19Scn) c19Outcome {
 	}
 	var limited, peers []*Session
 	var links []*kit.VLink
+	var extraMu sync.Mutex
+	var extras []*Stream
 	for s := 0; s < sc.Sessions; s++ {
 		var key [32]byte
 		copy(key[:], kit.NewRng(sc.Seed*131+int64(s)).Bytes(32))
@@ -294,6 +299,14 @@ func c19RunScenario(sc c19Scn) c19Outcome {
 					return
 				}
 				st := conn.(*Stream)
+				if sc.CloseStreams > 0 && k >= sc.Streams {
+					extraMu.Lock()
+					extras = append(extras, st)
+					extraMu.Unlock()
+					wgAll.Add(1)
+					go drain(st, &appLim)
+					continue
+				}
 				wgAll.Add(2)
 				go drain(st, &appLim)
 				writers.Add(1)
@@ -332,7 +345,29 @@ func c19RunScenario(sc c19Scn) c19Outcome {
 			}(s, k)
 		}
 	}
-	time.Sleep(dur)
+	if sc.CloseStreams > 0 {
+		for _, peer := range peers {
+			for j := 0; j < sc.CloseStreams; j++ {
+				st, err := peer.OpenStream()
+				if err != nil {
+					return c19Outcome{Err: "OpenStream: " + err.Error()}
+				}
+				st.Write([]byte("extra-stream"))
+				wgAll.Add(1)
+				go drain(st, &appPeer)
+			}
+		}
+		time.Sleep(dur / 2)
+		extraMu.Lock()
+		ex := append([]*Stream(nil), extras...)
+		extraMu.Unlock()
+		for _, st := range ex {
+			go st.Close()
+		}
+		time.Sleep(dur - dur/2)
+	} else {
+		time.Sleep(dur)
+	}
 	rec.endBacklog("tx")
 	rec.endBacklog("rx")
 	// the user's sessions are closed by the limited side while its writers are in the middle of their writes and
@@ -741,6 +776,7 @@ func c19Scenarios(seed int64, thorough bool) []c19Scn {
 		c19Scn{Sessions: 4, Conns: 2, Streams: 1, Link: "tls", Method: EncryptionMethodAES128GCM, Tx: c19Dir{5000, B, 1400}, Rx: c19Dir{2000, I, 100}, DurS: 10},
 		c19Scn{Sessions: 9, Conns: 1, Streams: 1, Link: "tls", Method: EncryptionMethodAES256GCM, Tx: c19Dir{2000, B, 100}, Rx: c19Dir{20000, I, 100}, DurS: 12, Timeout: true},
 		// real parallelism into full buckets
+		c19Scn{Sessions: 2, Conns: 2, Streams: 1, Link: "tls", Method: EncryptionMethodAES256GCM, Tx: c19Dir{4000, B, 100}, Rx: c19Dir{200000, I, 100}, DurS: 10, CloseStreams: 150},
 		c19Scn{Sessions: 4, Conns: 2, Streams: 1, Link: "tls", Method: EncryptionMethodAES256GCM, Tx: c19Dir{20000, "race", 0}, Rx: c19Dir{5000, "race", 0}, Race: 8, Rounds: 150},
 		c19Scn{Sessions: 4, Conns: 4, Streams: 1, Link: "tls", Method: EncryptionMethodChaha20Poly1305, Tx: c19Dir{2000, "race", 0}, Rx: c19Dir{20000, "race", 0}, Race: 6, Rounds: 150},
 		c19Scn{Sessions: 1, Conns: 2, Streams: 1, Link: "tls", Method: EncryptionMethodAES128GCM, Tx: c19Dir{5000, "race", 0}, Rx: c19Dir{2000, "race", 0}, Race: 3, Rounds: 150})
